@@ -119,7 +119,7 @@ CHECKS = {
         "component/atom/frame with Newton-3 signs and b_ uses the same rows; both least-squares variants clear their accumulators per "
         "block; the constrained solve works in the null space of the constraints (head of Q^T x forced to zero) so constraints hold "
         "exactly; the spline constraint rows are the C1 conditions."
-        + 'Also (shared with C07): the bond and angle gradients that fill the bonded rows of the force-matching matrix equal the derivative of EvaluateVar and sum to zero (dihedral in the thorough tier). ',
+        + 'Also (shared with C07): the bond, angle and dihedral gradients that fill the bonded rows of the force-matching matrix equal the derivative of EvaluateVar and sum to zero. ',
    note="Necessary structural conditions; holding does not establish numerical accuracy or that fmatch reproduces representable force "
         "functions on data (needs execution). Trusted: Eigen decompositions."),
  "C18": dict(cat="other", ref="DESIGN.md section 4 C18",
@@ -139,7 +139,7 @@ CHECKS = {
         "elements are copies of the pristine default element (no leakage between list entries); every one of the shipped option "
         "descriptions resolves its links, has well-formed choices, defaults that satisfy their own choices and distinct list tags; "
         "XML output escapes values and attributes so that written trees load back; bool accepts exactly the documented literals."
-        + 'Also: a multi-selection value is valid exactly when every word is a declared choice (the word loop or all_of term run abstractly on two words); float+/int+ reject negative values, decided on the folded result. ',
+        + 'Also: a multi-selection value is valid exactly when every word is a declared choice (the word loop or all_of term run abstractly on two words); float+/int+ reject negative values, decided on the folded result; every linked sub-package file is loaded into a Property object of its own. ',
    note="Not decided: the complete merge semantics on arbitrary user trees, expat's behaviour, numeric lexical_cast details. The lint "
         "covers xtp/share/xtp/xml and its sub-packages (csg_defaults.xml.in is a template without choices attributes)."),
  "C10": dict(cat="other", ref="DESIGN.md section 4 C10",
@@ -158,7 +158,7 @@ CHECKS = {
         "checkConvergence returned true; that predicate is 'all requested residual norms < tol_'; every run of solve assigns the status "
         "before it can return, so a reused solver cannot report a stale Success; unconverged roots are zeroed and reported as "
         "NoConvergence; accepted option literals equal the shipped choices."
-        + 'Also decides two necessary conditions of the convergence clauses: extendProjection builds one correction for every unconverged tracked root (all tracked roots visited, consecutive new columns, resize by the unconverged count), and the cached product AV stays A*V (Ritz vectors q = V U, residues AV U - q diag(lambda), appended columns A*V_new, restart transforms AV and the retained vectors by the same matrix); non-finite correction vectors are filtered (decided by cases finite/NaN/Inf, also through a helper); the operator diagonal used by the correction is fetched from the operator of this solve() unconditionally before it is read. ',
+        + 'Also decides two necessary conditions of the convergence clauses: extendProjection builds one correction for every unconverged tracked root (all tracked roots visited, consecutive new columns, resize by the unconverged count), and the cached product AV stays A*V (Ritz vectors q = V U, residues AV U - q diag(lambda), appended columns A*V_new, restart transforms AV and the retained vectors by the same matrix); non-finite correction vectors are filtered (decided by cases finite/NaN/Inf, also through a helper); the operator diagonal used by the correction is fetched from the operator of this solve() unconditionally before it is read; restart() is told the number of columns extendProjection appended. ',
    note="NOT decided - and this is most of the property: returned values being the lowest eigenvalues, orthonormality, residual "
         "bounds, convergence for diagonally dominant matrices, the Hamiltonian mode. Those are numerical and outside static analysis. "
         "xtp is not built here; units parsed with synthesised flags."),
